@@ -11,6 +11,7 @@ mod props_hist;
 mod props_sched;
 mod report;
 mod sched;
+mod shard;
 mod subject;
 
 use report::Tier;
@@ -45,6 +46,24 @@ fn main() {
         Err(_) => {
           crashguard::uncaught_panic();
           eprintln!("machinery: the check panicked outside any published case");
+          101
+        }
+      };
+      subject::cleanup_scratch();
+      code
+    }
+    // one process-level shard of a check (see shard.rs): same dispatch, result file instead of evidence
+    "shard-child" => {
+      let id = args[2].as_str();
+      let tier = tier_of(&args);
+      let crash_path = report::verif_root().join("replays").join(format!("{}-crash-{}.json", id, std::process::id()));
+      let _ = std::fs::create_dir_all(crash_path.parent().unwrap());
+      crashguard::arm(id, &crash_path);
+      let code = match std::panic::catch_unwind(|| dispatch(id, tier)) {
+        Ok(c) => c,
+        Err(_) => {
+          crashguard::uncaught_panic();
+          eprintln!("machinery: the shard panicked outside any published case");
           101
         }
       };
